@@ -82,14 +82,48 @@ pub fn json_str(s: &str) -> String {
     o
 }
 
-/// run `f`, turning a panic into `Err(message)`
+thread_local! {
+    /// source file of the most recent panic (set by the panic hook installed in `main`)
+    pub static LAST_PANIC_FILE: std::cell::RefCell<String> = const { std::cell::RefCell::new(String::new()) };
+}
+
+pub fn install_panic_hook() {
+    std::panic::set_hook(Box::new(|info| {
+        let f = info.location().map(|l| l.file().to_string()).unwrap_or_default();
+        LAST_PANIC_FILE.with(|c| *c.borrow_mut() = f);
+    }));
+}
+
+/// run `f`, turning a panic into `Err("<message> @ <source file>")`
 pub fn guarded<T>(f: impl FnOnce() -> T) -> Result<T, String> {
     catch_unwind(AssertUnwindSafe(f)).map_err(|e| {
-        e.downcast_ref::<String>()
+        let msg = e
+            .downcast_ref::<String>()
             .cloned()
             .or_else(|| e.downcast_ref::<&str>().map(|s| s.to_string()))
-            .unwrap_or_else(|| "panic".to_string())
+            .unwrap_or_else(|| "panic".to_string());
+        let file = LAST_PANIC_FILE.with(|c| c.borrow().clone());
+        let file = file.rsplit("/src/").next().unwrap_or("").to_string();
+        format!("{msg} @ {file}")
     })
+}
+
+/// call-site key of a panic: message with every number replaced by `#`, plus the source file
+pub fn panic_key(msg: &str) -> String {
+    let mut out = String::new();
+    let mut in_num = false;
+    for c in msg.chars() {
+        if c.is_ascii_digit() {
+            if !in_num {
+                out.push('#');
+            }
+            in_num = true;
+        } else {
+            in_num = false;
+            out.push(if c == ' ' { '_' } else { c });
+        }
+    }
+    out
 }
 
 pub struct Violation {
